@@ -222,6 +222,41 @@ def check(cx):
                    "every success path passes the loop that returns the visited pages to the pager",
                    "Btree::dealloc has a success path that frees nothing (e.g. an early return for an empty tree): the root page of a "
                    "dropped empty table is neither in a tree nor on the free list")
+    # a page the tree has latched is released before it is handed to dealloc_page: the pager can convert a frame to a free page
+    # only when nobody holds it (cache.remove answers None for a pinned frame and the conversion is skipped silently)
+    for g in sorted(p.fns.values(), key=lambda x: x.id):
+        if g.impl_adt != "tree::bplustree::Btree" or g.root:
+            continue
+        dls = [c for c in g.calls() if c.callee.startswith(DEALLOC)]
+        if not dls:
+            continue
+        latches = [c for c in g.calls() if c.callee in (BT + "get_page_mut", BT + "get_page") and len(c.args) > 1 and op_local(c.args[1]) is not None]
+        rels = [c for c in g.calls() if c.callee.rsplit("::", 1)[-1] == "release" and "accessor" in c.callee.lower() and len(c.args) > 1]
+        for i, d in enumerate(dls):
+            dl = op_local(d.args[1]) if len(d.args) > 1 else None
+            if dl is None:
+                continue
+            # single-assignment temporaries: follow plain copies back to the variable
+            def var_of(l, g=g):
+                for _ in range(4):
+                    nxt = None
+                    for b in g.blocks:
+                        for st in b["stmts"]:
+                            if st["dst"] == [l] and st["rv"].get("r") == "use":
+                                pl = st["rv"]["o"][0].get("c") or st["rv"]["o"][0].get("m")
+                                if pl and len(pl) == 1:
+                                    nxt = pl[0]
+                    if nxt is None:
+                        return l
+                    l = nxt
+                return l
+            dv = var_of(dl)
+            if not any(var_of(op_local(c.args[1])) == dv for c in latches):
+                continue            # this function never latched that page itself
+            good = any(var_of(op_local(r_.args[1])) == dv and g.dominates(r_.bb, d.bb) for r_ in rels if op_local(r_.args[1]) is not None)
+            cx.verdict(good, r4, "%s:release-before-dealloc#%d" % (g.name, i), d.where(), "the latched page is released before it is freed",
+                       "Btree::%s frees a page it has latched without releasing the latch first: Pager::dealloc_page finds the frame pinned, "
+                       "skips the conversion to a free page and the free list is linked through a page that never becomes one" % g.name)
     # the overflow-chain walk frees every page whose link it has read, including the last one (whose link is None)
     h = cx.guard(r4, "dealloc_overflow_chain", p.fn, BT + "dealloc_overflow_chain")
     if h:
